@@ -78,6 +78,21 @@ def check(case, obs):
                 fails.append(("constraint/moved", "constrained element %d moved from %r to %r" % (i, complex(want), complex(final[i]))))
                 break
 
+    # ---- vertex-based field: the constraint of a feature vertex is the normalised sum of the order-th powers of the
+    #      directions of its feature edges (skipped where the edges conflict: the accumulation rule then depends on the
+    #      iteration order - known finding gauge/conflicting-vertex-constraints)
+    if elem == "vertices" and has_feat:
+        for v in fixed:
+            cs = vertex_contributions(case, obs, v)
+            if not cs or (len(cs) >= 2 and max(abs(a - b) for a in cs for b in cs) > 1e-6):
+                continue
+            want = sum(cs)
+            want = want / abs(want) if abs(want) > 1e-8 else want
+            if abs(var0[v] - want) > 1e-7:
+                fails.append(("constraint/vertex-value", "feature vertex %d is constrained to %r, the order-%d representation of its "
+                                                         "feature edge direction(s) is %r" % (v, complex(var0[v]), order, complex(want))))
+                break
+
     # ---- bases are orthonormal; faces: in the face plane, X along the first feature edge
     B = obs["bases"]
     for i, (X, Y) in enumerate(B):
